@@ -25,6 +25,12 @@ r = sh(f"git -C /repo apply --whitespace=nowarn {patch}")
 if r.returncode != 0:
     print("patch does not apply:", r.stderr); sys.exit(3)
 results = {}
+# the evidence files must describe runs on the unchanged tree: keep them
+saved = {}
+for c in checks:
+    f = f"/verif/evidence/{c}.json"
+    if os.path.exists(f):
+        saved[f] = open(f).read()
 try:
     for c in checks:
         p = sh(f"./check {c} --tier {tier} --seed {seed}", cwd="/verif")
@@ -33,6 +39,8 @@ try:
         print(f"{c}: exit {p.returncode} sigs {sigs[:6]}")
 finally:
     sh("git -C /repo checkout -- .")
+    for f, content in saved.items():
+        open(f, "w").write(content)
     new = sh("git -C /repo status --porcelain").stdout
     for line in new.splitlines():
         if line.startswith("??"):
